@@ -33,6 +33,9 @@ pub enum Plan16 {
     /// aggregator-side noise (`AggregatorWithNoise::add_noise_to_agg_share`) with extreme instance
     /// and privacy parameters; the OS randomness is replaced by a tape through the RNG seam
     Noise { class: String, n: u8, max: N, len: u32, chunk: u32, eps_n: N, eps_d: N, tape: Hx, num_measurements: u64 },
+    /// the proof system's own fallible operations (Flp::{prove, query, decide, valid}, Type::truncate) with an
+    /// argument that is shorter / longer than declared, or empty (delta = -128)
+    FlpLen { inst: Inst, meas: Vec<N>, which: String, arg: u8, delta: i8 },
 }
 
 pub struct Check16;
@@ -57,6 +60,12 @@ fn gen(seed: u64) -> Plan16 {
         let len = 1 + rng.below(6) as u32;
         let ext: [u128; 9] = [1, 1, 2, 3, 1000, u32::MAX as u128, u64::MAX as u128, (1u128 << 100) + 7, u128::MAX];
         return Plan16::Noise { class: class.to_string(), n: 2 + rng.below(2) as u8, max: N(max), len, chunk: 1 + rng.below(len as u64 + 2) as u32, eps_n: N(*rng.pick(&ext)), eps_d: N(*rng.pick(&ext)), tape: Hx(rng.bytes(64)), num_measurements: *rng.pick(&[0u64, 1, 2, 1000, u64::MAX]) };
+    }
+    if rng.chance(1, 12) {
+        let mut inst = crate::inst::gen_prio3_inst(rng, true, false);
+        inst.n = inst.n.min(4);
+        let meas = model::gen_meas(&inst, rng);
+        return Plan16::FlpLen { inst, meas, which: rng.pick(&["prove", "query", "query", "decide", "valid", "truncate"]).to_string(), arg: rng.below(4) as u8, delta: *rng.pick(&[-1i8, 1, 2, 9, -2, -3, -5, i8::MIN, i8::MIN]) };
     }
     match rng.below(10) {
         0..=3 => {
@@ -926,6 +935,11 @@ fn exec(p: &Plan16, ctx: &mut Ctx, counters2: &mut Counters) -> Result<(), Strin
                 _ => {}
             }
             Ok(())
+        }
+        Plan16::FlpLen { inst, meas, which, arg, delta } => {
+            ctx.sig.str("flplen").str(&inst.class).str(which).u64(*arg as u64).u64((*delta as i64 + 200) as u64);
+            ctx.counters.inc("c16.flp_wrong_length_cases");
+            crate::checks_c05::exec_lengths(ctx, inst, meas, which, *arg, *delta, "C16.accepts")
         }
         Plan16::Dp { n, d, what } => {
             ctx.sig.str("dp").str(what).u64(n.0 as u64).u64(d.0 as u64);
